@@ -205,6 +205,40 @@ def zoo_domain_task(names):
     return out
 
 
+def mixed_precision_cases():
+    """Bounded CDF layers (single-precision parameters, as constructed) given double-precision data that lies outside
+    the unit box by less than single precision resolves: the value IS outside, it must be rejected - whether
+    the layer computes in the data's precision or in its own."""
+    warnings.filterwarnings("ignore")
+    import torch
+    from nflows.transforms import nonlinearities as NL
+    from nflows.transforms.base import InputOutsideDomain
+
+    n, fails = 0, []
+    for fam in ("Linear", "Quadratic", "Cubic", "RationalQuadratic"):
+        torch.manual_seed(3)
+        try:
+            m = getattr(NL, "Piecewise%sCDF" % fam)([2], num_bins=4)
+        except Exception:  # noqa
+            continue
+        m.eval()
+        for label, v in (("1 + 1e-9", 1.0 + 1e-9), ("1 + 2e-8", 1.0 + 2e-8), ("-1e-12", -1e-12), ("-1e-60", -1e-60)):
+            for direction in ("forward", "inverse"):
+                x = torch.tensor([[0.3, 0.6], [0.5, v]], dtype=torch.float64)
+                n += 1
+                try:
+                    with torch.no_grad():
+                        y, _ = getattr(m, direction)(x)
+                    got = "Value"
+                except InputOutsideDomain:
+                    got = "InputOutsideDomain"
+                except Exception:  # noqa  (a layer may refuse mixed precision altogether: that is a rejection too)
+                    got = "other_error"
+                if got == "Value":
+                    fails.append({"kind": "mixed_precision", "transform": "Piecewise%sCDF" % fam, "clause": "out_of_domain_accepted", "dtype": "float64 data / float32 layer", "cls": label, "dir": direction, "detail": "Piecewise%sCDF.%s (unit box, float32 parameters) accepts the float64 input %s and returns %s" % (fam, direction, label, y[1].tolist())})
+    return n, fails
+
+
 def main(run, replay=None):
     run.rule = (
         "cases = spline lattice points (in-domain, on the end points, outside) of every parameter set in both directions, "
@@ -218,6 +252,11 @@ def main(run, replay=None):
         if c.get("kind") == "zoo_domain":
             for f in zoo_domain_task([c["transform"]])["fails"]:
                 run.violation({"kind": "zoo_domain", "clause": f["clause"], "transform": f["transform"]}, "replayed: " + f["detail"], c)
+            return
+        if c.get("kind") == "mixed_precision":
+            for f in mixed_precision_cases()[1]:
+                if (f["transform"], f["cls"], f["dir"]) == (c["transform"], c["cls"], c["dir"]):
+                    run.violation({"kind": "mixed_precision", "clause": f["clause"], "transform": f["transform"]}, "replayed: " + f["detail"], c)
             return
         if c.get("kind") == "large_bound":
             n, fails = large_bounds()
@@ -242,6 +281,9 @@ def main(run, replay=None):
         run.evaluations += out["n"]
         fails += out["fails"]
     n, lf = large_bounds()
+    run.evaluations += n
+    fails += lf
+    n, lf = mixed_precision_cases()
     run.evaluations += n
     fails += lf
     from vcore import zoo as _z
